@@ -162,7 +162,7 @@ def reads_check(ctx):
 
 
 def run(ctx):
-    proof_ok, can_run = common.prepare(ctx, "C08+C08sem", release=True)
+    proof_ok, can_run = common.prepare(ctx, "C08+C08sem+C08sem2", release=True)
     if not can_run:
         common.broken_without_input(ctx, "build", ctx.notes[-1] if ctx.notes else "")
         return
